@@ -283,6 +283,58 @@ def build(tier):
         P.contract(MI + ".change_activation", variant=f"output-{outp}", params={"self": mi_self, "activation": (lambda ex, st, l: "ELU"), "output": (lambda ex, st, l, outp=outp: outp)},
                    requires=[], frame_fields=False, ensures=["described(self)", "self._activation == 'ELU'"],
                    replay={"adapter": "demos:run", "payload": {"name": "C07_demo_3"}})
+    # ------------------------------------------------------------------ MakeEvolvable.change_activation: the live network is rebuilt from
+    # the new description (so that what runs and what init_dict reports agree)
+    ME = "agilerl.wrappers.make_evolvable.MakeEvolvable"
+    calls = []
+
+    def me_self(ex, st, label):
+        calls.clear()
+        o = Obj(ME, label="self")
+        o.fields.update(dict(mlp_activation="ReLU", mlp_output_activation=None,
+                             recreate_network=Fn(model=lambda ex, st, a, k: calls.append((o.fields["mlp_activation"], o.fields["mlp_output_activation"])), name="recreate_network")))
+        return o
+    for outp in (True, False):
+        P.specns[f"rebuilt_{outp}"] = (lambda outp=outp: z3.BoolVal(calls == [("ELU", "ELU" if outp else None)]))       # rebuilt once, AFTER the names were stored
+        P.contract(ME + ".change_activation", variant=f"output-{outp}", params={"self": me_self, "activation": (lambda ex, st, l: "ELU"), "output": (lambda ex, st, l, outp=outp: outp)},
+                   requires=[], frame_fields=False, ensures=[f"rebuilt_{outp}()", "self.mlp_activation == 'ELU'"],
+                   replay={"adapter": "demos:run", "payload": {"name": "C07_demo_4"}})
+
+    # ------------------------------------------------------------------ MutableKernelSizes.change_kernel_size: the stored kernel of the layer is well
+    # formed for the block type whatever form (int / tuple) the requested size has, and the reported size can be fed back in
+    MK = MOD + "cnn.MutableKernelSizes"
+    for block, tuples, arg in (("Conv2d", False, "int"), ("Conv2d", True, "int"), ("Conv2d", True, "tuple"), ("Conv3d", True, "int"), ("Conv3d", True, "tuple")):
+        KS = z3.Int("requested_kernel")
+        DEPTH = z3.Int("old_depth")
+
+        def mk_self(ex, st, label, block=block, tuples=tuples):
+            o = Obj(MK, label="self")
+            old = (3, 3) if (tuples and block == "Conv2d") else ((DEPTH, 3, 3) if tuples else 3)
+            o.fields.update(dict(sizes=[old, old], cnn_block_type=block, tuple_sizes=tuples))
+            return o
+
+        def ks_arg(ex, st, l, block=block, arg=arg):
+            if arg == "int":
+                return KS
+            return (KS, KS) if block == "Conv2d" else (DEPTH, KS, KS)
+
+        def ks_post(o, result, block=block, tuples=tuples):
+            new = o.fields["sizes"][1]
+            if not tuples:
+                ok = z3ify(new) == KS
+            elif block == "Conv2d":
+                ok = z3.BoolVal(isinstance(new, tuple) and len(new) == 2) if not (isinstance(new, tuple) and len(new) == 2) else z3.And(z3ify(new[0]) == KS, z3ify(new[1]) == KS)
+            else:
+                ok = z3.BoolVal(False) if not (isinstance(new, tuple) and len(new) == 3) else z3.And(z3ify(new[0]) == DEPTH, z3ify(new[1]) == KS, z3ify(new[2]) == KS)
+            unchanged = z3.BoolVal(o.fields["sizes"][0] == ((3, 3) if (tuples and block == "Conv2d") else ((DEPTH, 3, 3) if tuples else 3)))
+            return z3.And(ok, unchanged, z3ify(result) == KS)                # reports an int that can be handed to a sister network
+        tag = f"{block}-{'tuple' if tuples else 'int'}-kernels-{arg}-arg"
+        P.specns[f"ks_post_{tag.replace('-', '_')}"] = ks_post
+        P.contract(MK + ".change_kernel_size", variant=tag,
+                   params={"self": mk_self, "hidden_layer": (lambda ex, st, l: 1), "channel_size": "opaque", "stride_size": "opaque", "input_shape": "opaque", "kernel_size": ks_arg},
+                   requires=["requested_kernel >= 1"], frame_fields=False, ensures=[f"ks_post_{tag.replace('-', '_')}(self, result)"],
+                   replay={"adapter": "demos:run", "payload": {"name": "C03_demo_3"}})
+    P.specns["requested_kernel"] = z3.Int("requested_kernel")
     P.native.append(dict(name="walk", adapter="c03:walk", thorough_only=True, payload={"mode": "search"},
                          bound="MLP, CNN, LSTM, SimBa, MultiInput(vector_mlp), QNetwork: all mutation words up to length 3 plus seeded walks of 40 steps; "
                                "forward output finite with declared shape for batch 1..3; strict reload from init_dict; clone reproduces outputs"))
